@@ -301,23 +301,6 @@ impl Graph {
         seen
     }
 
-    pub fn ancestors(&self, x: &TxId) -> BTreeSet<TxId> {
-        let mut seen = BTreeSet::new();
-        let mut stack: Vec<TxId> = self
-            .parents
-            .get(x)
-            .map(|c| c.iter().copied().collect())
-            .unwrap_or_default();
-        while let Some(n) = stack.pop() {
-            if seen.insert(n)
-                && let Some(c) = self.parents.get(&n)
-            {
-                stack.extend(c.iter().copied());
-            }
-        }
-        seen
-    }
-
     pub fn edge_count(&self) -> usize {
         self.children.values().map(|c| c.len()).sum()
     }
